@@ -522,6 +522,15 @@ def run(ck: core.Check):
         ck.tie_break("driver does not serve the Lean witnesses", wit)
         wit = []
     for w in wit:
+        if w["name"].startswith("docOutside"):
+            # outside Valid by construction: the real code must agree with the kernel that it is NOT lossless
+            out, err = real_roundtrip(w["doc"])
+            ck.case("witness:" + w["name"], nontrivial=True)
+            ck.count("lean_witnesses_replayed")
+            real_lossless = out is not None and not G.diff_paths(G.norm(w["doc"]), G.norm(out))
+            if real_lossless != bool(w["lossless"]):
+                ck.tie_break("Lean witness (outside Valid): the kernel's verdict and the real code's differ", {"witness": w["name"], "lean_lossless": w["lossless"], "real_lossless": real_lossless, "real_error": err})
+            continue
         fails, _ = oracle(w["doc"])
         ck.case("witness:" + w["name"], nontrivial=True)
         ck.count("lean_witnesses_replayed")
